@@ -32,6 +32,8 @@ import Tie.MetaTable
 #print axioms Sourcer.C07_memo_write_once
 #print axioms Sourcer.C08_match_outcome
 #print axioms Sourcer.C08_failure_outcome
+#print axioms Sourcer.C08_shift_law
+#print axioms Sourcer.C08_shift_law_generated_code
 #print axioms Sourcer.C09_index_range
 #print axioms Sourcer.C10_span_exact
 #print axioms Sourcer.C10_finalized_end
@@ -80,6 +82,8 @@ import Tie.MetaTable
 #print axioms Sourcer.C06_arguments_bind_parameters
 #print axioms Sourcer.C06_call_means_its_expansion_closed_arguments
 #print axioms Sourcer.C06_more_fuel_same_outcome
+#print axioms Sourcer.C20_renaming_changes_only_names
+#print axioms Sourcer.C20_injective_renaming_keeps_classes_apart
 #print axioms Tie.implFlags_sound -- module Tie.Flags
 #print axioms Tie.impl_refines -- module Tie.Flags
 #print axioms Tie.map_index_eq -- module Tie.Excerpt
